@@ -401,7 +401,7 @@ def flatHolds (st : St) : List (Nat × HoldS) :=
 def initSt (bpm0 : Rat) : St := ⟨[⟨bpm0, defMet, ⟨0, 0, some defMet⟩⟩], fun _ => ⟨[], []⟩⟩
 
 /-- `_read_notes` after the line loop -/
-def finishRead (g : Array Rat) (hdr : Header) (st : St) : Except Err Chart := do
+def finishRead (g : Array Rat) (st : St) : Except Err (List HitOut × List HoldOut × List BcOff × List BcSnap) := do
   let cs := sortBcSnap (dropOverridden st.bcsRev.reverse)
   let tm ← liftT (fromBcSnap 0 cs false)
   let hs := flatHits st
@@ -414,7 +414,7 @@ def finishRead (g : Array Rat) (hdr : Header) (st : St) : Except Err Chart := do
   let (bco, bcs) ← liftT (bcsOfBco g tm)
   let t0 := (bco.head?.map (·.offset)).getD 0
   let tm2 ← liftT (fromBcSnap t0 bcs true)
-  .ok ⟨hdr, hits, holds, tm2, cs⟩
+  .ok (hits, holds, tm2, cs)
 
 /-- `BMSMap.read(lines, note_channel_config)` -/
 def read (g : Array Rat) (lay : Layout) (lines : List Bytes) : Except Err Chart := do
@@ -423,6 +423,8 @@ def read (g : Array Rat) (lay : Layout) (lines : List Bytes) : Except Err Chart 
   if hdr.bpm0 ≤ 0 then .error .unsupported else
   let ctx : Ctx := ⟨lay, hdr.lnEnd, hdr.exbpms, hdr.samples⟩
   let st ← foldlE applyEv (initSt hdr.bpm0) (events ctx doc.notes)
-  finishRead g hdr st
+  match finishRead g st with
+  | .error e => .error e
+  | .ok r => .ok ⟨hdr, r.1, r.2.1, r.2.2.1, r.2.2.2⟩
 
 end Reamber.BMS
